@@ -214,8 +214,10 @@ def check_areas(spec: dict) -> dict:
                 "cross_origin": {n for n in want if gen.is_span(genes[n]["loc"])},
                 "post_origin": {n for n in want if not gen.is_span(genes[n]["loc"]) and ring.contains(post, genes[n]["loc"])},
             }
+            # a multi-exon gene with exons on both sides of the origin belongs to no single section: not judged
+            ambiguous = set(want) - set().union(*want_sections.values())
             children = area.cds_children
-            got_sections = {key: {cds.get_name() for cds in getattr(children, key)} for key in want_sections}
+            got_sections = {key: {cds.get_name() for cds in getattr(children, key)} - ambiguous for key in want_sections}
             if got_sections != want_sections:
                 raise Violation("area_sections", {"area": label, "location": loc_spec,
                                                   "got": {k: sorted(v) for k, v in got_sections.items()},
